@@ -29,7 +29,7 @@ def plan(tier, seed):
     n = 8 if tier == "quick" else 32
     return ([{"kind": "tokens", "n": 250 if tier == "quick" else 2500} for _ in range(n)]
             + [{"kind": "follow"}]
-            + [{"kind": "faults", "n": 500 if tier == "quick" else 5000} for _ in range(n)]
+            + [{"kind": "faults", "n": 500 if tier == "quick" else 5000, "long_lines": i_ == 0} for i_ in range(n)]
             + [{"kind": "modules", "n": 60 if tier == "quick" else 500} for _ in range(2 if tier == "quick" else 8)]
             + [{"kind": "cli", "n": 6 if tier == "quick" else 30}])
 
@@ -251,10 +251,39 @@ def interpret_again(ctx, it, r, text, want_pos, want_trace, name):
             ctx.violation("C20:again:stacktrace-filename", "second reading as %s: stack trace names %r" % (fname2, tl), {"text": text2})
 
 
+def run_long_lines(ctx, it, r):
+    """a fault that begins far to the right (columns beyond 2^16 and 2^17) on a very long line: still that line"""
+    import ckl.functions
+    import ckl.parser
+    for cols in (66000, 140000):
+        filler = "def big = [" + "1, " * (cols // 3) + "1]; "
+        for name, ft in (("type-error", "1 + TRUE"), ("undefined-name", "nosuchname"), ("call", "def f(x) 1 / x; f(0)")):
+            pre = r.randint(0, 3)
+            text = "\n" * pre + "def v0 = 0;\n" + filler + ft + ";\n" + "v0\n"
+            want = pre + 2
+            env = ckl.functions.Environment()
+            o = observe(lambda: it.interpret(text, FNAME, env), 40000000)
+            ctx.count("long_line_programs")
+            ctx.case(("long-line", cols, name, pre), nontrivial=True)
+            if o.kind != "rte":
+                ctx.violation("C20:long-line:fault-not-raised", "%d columns, %s -> %s %s" % (cols, name, o.kind, core.safe_str(o.exc, 100)), {"cols": cols})
+                continue
+            lines_seen = [o.exc.pos.line if o.exc.pos is not None else None] + [ln for fn, ln in trace_lines(o.exc)]
+            if any(ln != want for ln in lines_seen):
+                ctx.violation("C20:long-line:%s" % name, "a fault at column > %d of line %d is reported on lines %r" % (cols, want, lines_seen), {"cols": cols})
+        text = "def v0 = 0;\n" + filler + "def = \n"
+        o = observe(lambda: ckl.parser.parse_script(text, FNAME), 40000000)
+        ctx.count("long_line_programs")
+        if o.kind != "syntax" or o.exc.pos is None or o.exc.pos.line not in (2, 3):
+            ctx.violation("C20:long-line:syntax", "syntax error at column > %d of line 2 -> %s at %r" % (cols, o.kind, getattr(o.exc, "pos", None)), {"cols": cols})
+
+
 def run_faults(spec, ctx):
     import ckl.functions
     r = ctx.rng
     it, out = core.new_interpreter(secure=True, legacy=True)
+    if spec.get("long_lines"):
+        run_long_lines(ctx, it, r)
     modes = ["random", "random", "random", "lf", "crlf", "comments", "tabs"]
     for i in range(spec["n"]):
         mode = r.choice(modes)
@@ -453,7 +482,7 @@ def run_shard(spec, ctx):
 def finalize(merged, tier):
     c = merged["counters"]
     reasons = []
-    for k in ("token_positions", "runtime_fault_programs", "nested_call_programs", "syntax_fault_programs", "module_programs", "cli_runs", "reinterpretations"):
+    for k in ("token_positions", "runtime_fault_programs", "nested_call_programs", "syntax_fault_programs", "module_programs", "cli_runs", "reinterpretations", "long_line_programs"):
         if c.get(k, 0) == 0:
             reasons.append("monitor counter %s is zero" % k)
     if c.get("token_streams_misaligned", 0) + c.get("lexer_rejected", 0) > 0.2 * max(1, c.get("token_streams", 0)):
